@@ -34,7 +34,7 @@ Clauses == {
   "C06_DestNeverPartial", "C06_NoTempWhenDone", "C06_FailureLeavesOld",
   "C06_CancelOldOrComplete", "C06_SuccessPublishesComplete",
   "C07_NoRequestIfNotStarted", "C07_CancelledOutcome", "C07_CancelErrorTruthful",
-  "C07_FinishedKeepsResult", "C07_CancelEntryPointReturns",
+  "C07_FinishedKeepsResult", "C07_CancelEntryPointReturns", "C07_EntryPointCancelsAll",
   "C08_QueuedAtMostOnce", "C08_QueuedOnceWhenStarted", "C08_QueuedBeforeAnyRequest",
   "C08_NoQueuedIfCancelledBeforeStart", "C08_DoneAtMostOnce", "C08_DoneExactlyOnceAtEnd",
   "C08_DoneAfterFinalAndQuiet", "C08_NoProgressAfterDoneBegan", "C08_NoQueuedAfterDoneBegan",
@@ -120,6 +120,10 @@ Holds(c, o) ==
                /\ xr.msgok
                /\ xr.cls = (IF xr.cancelHow = "exit-exc" THEN "FatalError" ELSE "CancelledError"))
     [] c = "C07_CancelEntryPointReturns" -> ~o.cancelRaised
+    \* shutdown(cancel=True) / an exception or Ctrl-C leaving the with-block hands the cancel
+    \* to the controller whenever a transfer is still tracked; so does a Ctrl-C that ends
+    \* the wait inside shutdown(); and the controller hands it to every tracked transfer
+    [] c = "C07_EntryPointCancelsAll" -> ~o.entrySkipped /\ ~o.kbiSkipped /\ ~o.ctlMissed
     [] c = "C07_FinishedKeepsResult" -> AllX(o, LAMBDA xr : xr.override \/ ~xr.resChanged)
 
     [] c = "C08_QueuedAtMostOnce" ->
